@@ -71,10 +71,14 @@ def execute(plan, sim):
     stmts, nss = nodes.split_ops(plan["ops"])
     sim.count(cfg["integration"] + "_streams")
     try:
-        data = nodes.serialize(cfg, plan["ops"], sim)
+        if plan.get("kind") == "grouped":
+            from checks import c07
+            data = c07.write_grouped(cfg, stmts, cfg["groups"])
+        else:
+            data = nodes.serialize(cfg, plan["ops"], sim)
     except Exception as e:  # noqa: BLE001
         return [{"clause": "C19.serialize_raised", "sig": {"exc": type(e).__name__}, "msg": f"{type(e).__name__}: {e}"}], None
-    delimited = nodes.wrote_delimited(cfg)
+    delimited = True if plan.get("kind") == "grouped" else nodes.wrote_delimited(cfg)
     r = refdec.decode_stream(data, delimited, strict=True)
     if not r.ok:
         return [{"clause": "C19.invalid_stream", "sig": {"cls": r.error["cls"]}, "msg": str(r.error)}], None
@@ -104,7 +108,8 @@ def execute(plan, sim):
             v.append({"clause": "C19.missed_zero_form", "sig": {**integ, "field": what},
                       "msg": f"{len(a[key])} explicit {what}s where the delta rule makes 0 equivalent, first at "
                              f"{a[key][0]}"})
-    if cfg["physical"] == "GRAPHS" and cfg["integration"] == "generic" and stmts and len(stmts[0]) == 4:
+    grouped = plan.get("kind") == "grouped"     # several containers: not one statement sequence
+    if cfg["physical"] == "GRAPHS" and cfg["integration"] == "generic" and stmts and len(stmts[0]) == 4 and not grouped:
         sim.count("graphs_from_sequence")
         want = runs_of_graphs(stmts)
         if a["graph_starts"] != want:
